@@ -668,6 +668,75 @@ class _Rename(ast.NodeTransformer):
         return node
 
 
+def _handler_style_exit(ex):
+    """(E, [extra conditions], [handler statements]) for an __exit__(self, t, v, tb) of the form
+         if [c1 or ...] t is None or not issubclass(t, E): return False
+         <handler: may use v, ends by raise / return X / falling off>"""
+    b = [x for x in ex.body if not (isinstance(x, ast.Expr) and isinstance(x.value, ast.Constant))]
+    if not b or not isinstance(b[0], ast.If) or b[0].orelse:
+        return None
+    t, v, tb = (a.arg for a in ex.args.args[1:])
+    test = b[0].test
+    ops = list(test.values) if isinstance(test, ast.BoolOp) and isinstance(test.op, ast.Or) else [test]
+    etype, none_seen, extra = None, False, []
+    for o in ops:
+        if isinstance(o, ast.Compare) and len(o.ops) == 1 and isinstance(o.ops[0], ast.Is) and isinstance(o.left, ast.Name) and o.left.id == t \
+                and isinstance(o.comparators[0], ast.Constant) and o.comparators[0].value is None:
+            none_seen = True
+        elif isinstance(o, ast.UnaryOp) and isinstance(o.op, ast.Not) and isinstance(o.operand, ast.Call) and isinstance(o.operand.func, ast.Name) and o.operand.func.id == "issubclass" \
+                and len(o.operand.args) == 2 and isinstance(o.operand.args[0], ast.Name) and o.operand.args[0].id == t and etype is None:
+            etype = o.operand.args[1]
+        elif isinstance(o, ast.UnaryOp) and isinstance(o.op, ast.Not) and isinstance(o.operand, ast.Call) and isinstance(o.operand.func, ast.Name) and o.operand.func.id == "isinstance" \
+                and len(o.operand.args) == 2 and isinstance(o.operand.args[0], ast.Name) and o.operand.args[0].id == v and etype is None:
+            etype = o.operand.args[1]
+        elif any(isinstance(n, ast.Name) and n.id in (t, v, tb) for n in ast.walk(o)) or any(isinstance(n, ast.Call) for n in ast.walk(o)):
+            return None
+        else:
+            extra.append(o)
+    if etype is None or not none_seen and not (isinstance(etype, ast.AST)):
+        return None
+    g = b[0].body
+    if not (len(g) == 1 and isinstance(g[0], ast.Return) and (g[0].value is None or (isinstance(g[0].value, ast.Constant) and not g[0].value.value))):
+        return None
+    rest = b[1:]
+    if any(isinstance(n, ast.Name) and n.id in (t, tb) for x in rest for n in ast.walk(x)):
+        return None
+    if any(isinstance(n, (ast.FunctionDef, ast.Lambda, ast.Yield, ast.YieldFrom)) for x in rest for n in ast.walk(x)):
+        return None
+    return etype, extra, rest
+
+
+def _returns_to_reraise(stmts):
+    """the statements of a handler-style __exit__ as the body of an except clause: `return <false>` re-raises, `return <true>` ends the
+    handler, `return X` re-raises unless X; falling off the end re-raises"""
+    def conv(lst, tail):
+        out = []
+        for x in lst:
+            if isinstance(x, ast.Return):
+                if x.value is None or (isinstance(x.value, ast.Constant) and not x.value.value):
+                    out.append(ast.Raise(exc=None, cause=None))
+                elif isinstance(x.value, ast.Constant):
+                    out.append(ast.Pass())
+                else:
+                    val = x.value
+                    if isinstance(val, ast.Call) and isinstance(val.func, ast.Name) and val.func.id == "bool" and len(val.args) == 1 and not val.keywords:
+                        val = val.args[0]
+                    out.append(ast.If(test=ast.UnaryOp(op=ast.Not(), operand=val), body=[ast.Raise(exc=None, cause=None)], orelse=[]))
+                return out, True
+            if isinstance(x, ast.If):
+                x.body, e1 = conv(x.body, False)
+                x.orelse, e2 = conv(x.orelse, False) if x.orelse else ([], False)
+                x.body = x.body or [ast.Pass()]
+            out.append(x)
+            if isinstance(x, ast.Raise):
+                return out, True
+        return out, False
+    out, ended = conv(list(stmts), True)
+    if not ended:
+        out.append(ast.Raise(exc=None, cause=None))
+    return out
+
+
 def _pure_chain(e):
     """a name or a chain of attribute reads on a name"""
     while isinstance(e, ast.Attribute):
@@ -885,6 +954,7 @@ class Inliner:
                     continue
                 exc_params = {a.arg for a in ex.args.args[1:]}
                 on_error = None
+                handler_style = None
                 if any(isinstance(n, ast.Name) and n.id in exc_params for n in ast.walk(ex)):
                     # __exit__ that acts only when the block raised:  if exc_type is not None: <cleanup>   [return False]
                     b_ = [x for x in ex.body if not (isinstance(x, ast.Expr) and isinstance(x.value, ast.Constant))]
@@ -896,8 +966,11 @@ class Inliner:
                             and (len(b_) == 1 or (isinstance(b_[1], ast.Return) and (b_[1].value is None or (isinstance(b_[1].value, ast.Constant) and not b_[1].value.value))))):
                         on_error = b_[0].body
                     else:
-                        continue
-                if any(not (r.value is None or (isinstance(r.value, ast.Constant) and not r.value.value)) for r in _returns_in(ex)):
+                        hs = _handler_style_exit(ex)
+                        if hs is None:
+                            continue
+                        handler_style = hs
+                if handler_style is None and any(not (r.value is None or (isinstance(r.value, ast.Constant) and not r.value.value)) for r in _returns_in(ex)):
                     continue
                 if it.optional_vars is not None:
                     sp = en.args.args[0].arg
@@ -915,7 +988,22 @@ class Inliner:
                 def call(meth, args):
                     c = ast.Call(func=ast.Attribute(value=ast.Name(id=v, ctx=ast.Load()), attr=meth, ctx=ast.Load()), args=args, keywords=[])
                     return ast.Expr(value=c)
-                if on_error is not None:
+                if handler_style is not None:
+                    # __exit__ written as an exception handler:  if [extra or] exc_type is None or not issubclass(exc_type, E): return False; <handler>
+                    #   ->  try: body  except E as _exc: [if extra: raise]; <handler with `return X` -> `if not X: raise`>
+                    etype, extra, rest = handler_style
+                    sp_ = ex.args.args[0].arg
+                    self.counter += 1
+                    en_ = "_exc%d" % self.counter
+                    ren = _Rename({}, {sp_: ast.Name(id=v, ctx=ast.Load()), ex.args.args[2].arg: ast.Name(id=en_, ctx=ast.Load())})
+                    hb = []
+                    if extra:
+                        t_ = extra[0] if len(extra) == 1 else ast.BoolOp(op=ast.Or(), values=extra)
+                        hb.append(ast.If(test=ren.visit(copy.deepcopy(t_)), body=[ast.Raise(exc=None, cause=None)], orelse=[]))
+                    hb += _returns_to_reraise([ren.visit(copy.deepcopy(x)) for x in rest])
+                    handler = ast.ExceptHandler(type=copy.deepcopy(etype), name=en_, body=hb or [ast.Raise(exc=None, cause=None)])
+                    new = [ast.Assign(targets=[ast.Name(id=v, ctx=ast.Store())], value=ce), call("__enter__", []), ast.Try(body=s.body, handlers=[handler], orelse=[], finalbody=[])]
+                elif on_error is not None:
                     sp_ = ex.args.args[0].arg
                     cleanup = [_Rename({}, {sp_: ast.Name(id=v, ctx=ast.Load())}).visit(copy.deepcopy(x)) for x in on_error]
                     handler = ast.ExceptHandler(type=None, name=None, body=cleanup + [ast.Raise(exc=None, cause=None)])
